@@ -716,6 +716,11 @@ def run(ctx):
                               {"mode": "fallback", "force": 1})
             elif rc1 != 0:
                 ctx.violation("uring-eopnotsupp-fallback-crash", f"C11 fallback probe exited {rc1}: {e1[-600:]}", {"mode": "fallback", "force": 1})
+            elif any(("-missing" in l or "-badfd" in l) and not l.endswith("ptr=null") for l in l1):
+                bad = next(l for l in l1 if ("-missing" in l or "-badfd" in l) and not l.endswith("ptr=null"))
+                ctx.violation("uring-eopnotsupp-stat-fallback-stale-ptr",
+                              f"C11: failing stat completed through the -EOPNOTSUPP fallback: req->ptr must be NULL in the callback: `{bad}`",
+                              {"mode": "fallback", "force": 1})
             elif l1 != outs[0][1]:
                 k = next((i for i in range(min(len(l1), len(outs[0][1]))) if l1[i] != outs[0][1][i]), 0)
                 ctx.violation("uring-eopnotsupp-fallback-differs", f"C11: forced -EOPNOTSUPP fallback: `{l1[k]}` vs unforced `{outs[0][1][k]}`",
